@@ -30,7 +30,7 @@ def gen_case(r, idx, env):
     pre = None
     if r.random() < 0.5:
         pre = {"add": [[r.choice(["added.txt", "sub/new/deep.txt", "index.txt"]), r.choice(HOSTILE)] for _ in range(r.randint(0, 2))], "remove": r.sample(["index.txt", "keep", "nope"], r.randint(0, 2)),
-               "append": [["log.txt", "line\n"]] if r.random() < 0.6 else []}
+               "append": ([["log.txt", "line\n"]] if r.random() < 0.6 else []) + ([["linked.txt", "written through the copy\n"]] if r.random() < 0.4 else [])}
     c["build"] = {"builder": r.choice(["heroku/builder:24", "-b", "builder with space", "--builder"]), "app_dir": app, "buildpacks": bps, "env": [[k, v] for k, v in benv.items()],
                   "preprocessor": pre, "expected": "success"}
     cenv = {}
@@ -38,8 +38,12 @@ def gen_case(r, idx, env):
         cenv[r.choice(KEYS)] = r.choice(HOSTILE)
     cmd = None if r.random() < 0.3 else [r.choice(HOSTILE) for _ in range(r.randint(0, 4))]
     mounts = {}
-    for _ in range(r.choice([0, 0, 1, 2])):
+    for _ in range(r.choice([0, 0, 1, 2, 3])):
         mounts[r.choice(["/src/a", "/host path/with space", "rel/src", "/src=eq", "/-dash"])] = r.choice(["/target", "/t space", "/t=eq", "/-t"])
+    if len(mounts) >= 2 and r.random() < 0.5:
+        # two different sources mounted onto the same target: both mounts are handed to docker, which is the one to complain
+        ks = sorted(mounts)
+        mounts[ks[1]] = mounts[ks[0]]
     c["container"] = {"entrypoint": None if r.random() < 0.4 else r.choice(HOSTILE), "command": cmd, "env": [[k, v] for k, v in cenv.items()],
                       "ports": sorted(set(r.choice([80, 8080, 1, 65535, 3000]) for _ in range(r.choice([0, 1, 2, 4])))), "mounts": [[s, t] for s, t in mounts.items()]}
     c["rebuild"] = r.random() < 0.4
@@ -103,6 +107,11 @@ def run_case(env, c, sh):
     link = os.path.join(env.crate, "fixtures", "link")
     if not os.path.lexists(link):
         os.symlink("../elsewhere/deep", link)
+    # a symbolic link with an ABSOLUTE target inside the app fixtures: the copy given to a preprocessor is a copy, not a set of links back
+    for appdir in ("fixtures/app", "fixtures/other app"):
+        lk = os.path.join(env.crate, appdir, "linked.txt")
+        if not os.path.lexists(lk):
+            os.symlink(os.path.join(env.crate, "elsewhere", "deep", "marker"), lk)
     scenario = {"builds": [{"config": c["build"], "body": [{"op": "run_shell_command", "command": c["shell"]},
                                                             {"op": "start_container", "config": c["container"], "body": [{"op": "shell_exec", "command": c["exec"]}] +
                                                              ([{"op": "address_for_port", "port": c["container"]["ports"][0]}] if c["container"]["ports"] else [])}] +
